@@ -98,6 +98,64 @@ def build_sim(name):
     return build
 
 
+# ---- SimTrackView::operator=(Initializer): a track slot is (re)initialised completely -------------------------------
+SIM_INIT_LAYOUT = """
+#include <stdlib.h>
+enum { TS_inactive = 0, TS_initializing = 1, TS_alive = 2, TS_errored = 3, TS_killed = 4, TS_size_ = 5 };   /* TrackStatus (bound) */
+#define INVALID_ID ((size_type)-1)
+#define NS 8         /* slots of the state in this unit's harness (the function touches one slot; the frame is checked on a witness slot) */
+typedef struct { size_type track_id, parent_id, event_id; real_type time; } SimTrackInitializer;
+typedef struct { size_type track_ids[NS], parent_ids[NS], event_ids[NS], num_steps[NS], num_looping_steps[NS]; size_type nls_size;     /* num_looping_steps is EMPTY (size 0) when no looping threshold is configured */
+                 real_type time[NS], step_length[NS]; size_type post_step_action[NS], along_step_action[NS]; signed char status[NS]; size_type size_; } SimStateRef;
+typedef struct { SimStateRef* states_; size_type track_slot_; } SimTrackViewR;
+#define COLL(member, slot) (*(__CPROVER_assert((slot) < self->states_->size_, "celer_expect: Collection::operator[] i < size"), &self->states_->member[slot]))
+#define COLL_NLS(slot) (*(__CPROVER_assert((slot) < self->states_->nls_size, "celer_expect: Collection::operator[] i < size (num_looping_steps)"), &self->states_->num_looping_steps[slot]))
+#define S_(member) (self->states_->member[self->track_slot_])
+#define W_(member) (self->states_->member[g_w])
+size_type g_w;     /* ghost: any OTHER slot */
+"""
+SIM_INIT_RULES = [
+    Rule(r"states_\.num_looping_steps\.empty\(\)", "(self->states_->nls_size == 0)", "*", note="Collection::empty()"),
+    Rule(r"states_\.num_looping_steps\[track_slot_\]", "COLL_NLS(self->track_slot_)", "*", note="Collection[track_slot_] (own size)"),
+    Rule(r"states_\.(\w+)\[track_slot_\]", r"COLL(\1, self->track_slot_)", "+", note="Collection[track_slot_] of the state reference"),
+    Rule(r"\bother\.", "other->", "+", note="const& parameter -> pointer"),
+    Rule(r"TrackStatus::(\w+)", r"TS_\1", "*", note="enum class value (bound)"),
+    Rule(r"(COLL\((?:step_length), self->track_slot_\)) = \{\};", r"\1 = 0;", "*", note="value-initialised real_type"),
+    Rule(r"(COLL\((?:post_step_action|along_step_action), self->track_slot_\)) = \{\};", r"\1 = INVALID_ID;", "*", note="value-initialised OpaqueId = invalid"),
+    Rule(r"return \*this;", "return;", 1, note="returns *this (chaining not modelled)"),
+]
+
+
+def build_sim_init(ctx):
+    pc = ctx.func(STV, r"^CELER_FUNCTION SimTrackView& SimTrackView::operator=\(Initializer_t const& other\)", SIM_INIT_RULES, name="SimTrackView::operator=(Initializer)")
+    return (HDR + SIM_INIT_LAYOUT + """
+void STVR_init(SimTrackViewR* self, SimTrackInitializer const* other)
+__CPROVER_requires(__CPROVER_r_ok(self, sizeof(*self)) && __CPROVER_rw_ok(self->states_, sizeof(SimStateRef)) && __CPROVER_r_ok(other, sizeof(*other)))
+__CPROVER_requires(self->states_->size_ >= 1 && self->states_->size_ <= NS && self->track_slot_ < self->states_->size_ && g_w < NS && g_w != self->track_slot_)
+__CPROVER_requires(self->states_->nls_size == 0 || self->states_->nls_size == self->states_->size_)      /* looping counters: absent or one per slot */
+__CPROVER_assigns(__CPROVER_object_whole(self->states_))
+/* identity and clock from the initializer */
+__CPROVER_ensures(S_(track_ids) == other->track_id && S_(parent_ids) == other->parent_id && S_(event_ids) == other->event_id)
+__CPROVER_ensures(S_(time) == other->time || (__CPROVER_isnand(S_(time)) && __CPROVER_isnand(other->time)))
+/* a new track starts counting its steps at zero WHATEVER the slot held before and whether or not looping counters are configured */
+__CPROVER_ensures(S_(num_steps) == 0)
+__CPROVER_ensures(self->states_->nls_size != 0 ==> S_(num_looping_steps) == 0)
+/* status initializing, no step limit / actions left over from the slot's previous track */
+__CPROVER_ensures(S_(status) == TS_initializing && S_(step_length) == 0 && S_(post_step_action) == INVALID_ID && S_(along_step_action) == INVALID_ID)
+/* frame: no other slot is touched, the state's shape is unchanged */
+__CPROVER_ensures(self->states_->size_ == __CPROVER_old(self->states_->size_) && self->states_->nls_size == __CPROVER_old(self->states_->nls_size))
+__CPROVER_ensures(W_(track_ids) == __CPROVER_old(W_(track_ids)) && W_(parent_ids) == __CPROVER_old(W_(parent_ids)) && W_(event_ids) == __CPROVER_old(W_(event_ids)) && W_(num_steps) == __CPROVER_old(W_(num_steps))
+   && W_(num_looping_steps) == __CPROVER_old(W_(num_looping_steps)) && W_(status) == __CPROVER_old(W_(status)) && W_(post_step_action) == __CPROVER_old(W_(post_step_action)) && W_(along_step_action) == __CPROVER_old(W_(along_step_action)))
+{""" + pc.body + """}
+void h_sim_init(void)
+{
+    SimStateRef st; SimTrackViewR v; v.states_ = &st; SimTrackInitializer init;
+    STVR_init(&v, &init);
+    VERIF_CANARY();
+}
+""")
+
+
 # ---- TimeUpdater / TrackUpdater / PropagationApplier on the view model --------
 C05_STUBS = """
 /* additional view members used by the along-step helpers */
@@ -507,6 +565,9 @@ void h_cpsl(void)
 
 LEAF_CHECKS = ["--bounds-check", "--pointer-check"]
 UNITS = [
+    Unit("c05_stv_init", build_sim_init, "h_sim_init", enforce="STVR_init", timeout=120, backend=["sat", "cvc5"], must_have=[r"STVR_init.postcondition", r"celer_expect"], checks=LEAF_CHECKS,
+         note="SimTrackView::operator=(Initializer): the slot takes the initializer's ids and time, its step counter restarts at 0 (with or without looping counters), status initializing, no stale limit/actions; no other slot touched"),
+] + [
     Unit("c05_stv_" + nm, build_sim(nm), "h_sim", enforce=SIM_OPS[nm][1].split("(")[0].split()[-1], timeout=120, backend=["sat", "cvc5"],
          must_have=[r"postcondition"], checks=LEAF_CHECKS, note="SimTrackView::%s on the real state layout" % nm)
     for nm in SIM_OPS
